@@ -31,7 +31,7 @@ PROPS_DIR = os.path.join(HARNESS, "props")
 WORK = os.path.join(VERIF, "work")
 EVID = os.path.join(VERIF, "evidence")
 REPLAY = os.path.join(VERIF, "replay")
-KNOWN = os.path.join(VERIF, "known_findings.json")
+KNOWN = os.path.join(VERIF, "known_findings.txt")
 NCPU = os.cpu_count() or 4
 
 GOENV = dict(os.environ)
